@@ -708,13 +708,15 @@ def a_plLoopNexts(T):
             if isinstance(st, (ast.For, ast.With, ast.FunctionDef)):
                 if any(isinstance(n, ast.Call) and _u(n.func) == 'next' for n in ast.walk(st)): raise Untranslatable('next in a nested block')
                 return
+            guarded = set()
             for n in ast.walk(st):
-                if isinstance(n, (ast.ListComp, ast.GeneratorExp, ast.SetComp, ast.DictComp, ast.Lambda, ast.IfExp, ast.BoolOp)) and \
-                        any(isinstance(m, ast.Call) and _u(m.func) == 'next' for m in ast.walk(n)):
-                    raise Untranslatable('next in a conditional expression / comprehension')
+                inner = [m for m in ast.walk(n) if isinstance(m, ast.Call) and _u(m.func) == 'next']
+                if isinstance(n, (ast.ListComp, ast.GeneratorExp, ast.SetComp, ast.DictComp, ast.Lambda)) and inner:
+                    raise Untranslatable('next in a comprehension / lambda')
+                if isinstance(n, (ast.IfExp, ast.BoolOp)): guarded |= {id(m) for m in inner}     # evaluated on some paths only
             calls = [n for n in ast.walk(st) if isinstance(n, ast.Call) and _u(n.func) == 'next']
             calls.sort(key=lambda n: (n.lineno, n.col_offset))
-            for c in calls: (cond if conditional else unc).append(it_name(c))
+            for c in calls: (cond if (conditional or id(c) in guarded) else unc).append(it_name(c))
         for st in loop.body: walk_stmt(st, False)
         out.append(f'({lean_str(meth)}, [' + ', '.join(lean_str(x) for x in unc) + '], [' + ', '.join(lean_str(x) for x in cond) + '])')
     return '[' + ', '.join(out) + ']'
